@@ -288,11 +288,28 @@ fn judge<F: Fl>(c: &Case, l: &mut Local) {
     // ---- (3) shift by a constant (values chosen so that x + t is exact in F where possible)
     {
         let scale_mag = all64.iter().fold(0.0f64, |m, x| m.max(x.abs())).max(1e-300);
-        for _ in 0..3 {
-            let t = F::of(scale_mag * *r.pick(&[1.0, -1.0, 0.25, -8.0, 64.0, 1e-3]) * (1.0 + (r.below(8) as f64) / 8.0));
+        for si in 0..4 {
+            let mut t = F::of(scale_mag * *r.pick(&[1.0, -1.0, 0.25, -8.0, 64.0, 1e-3]) * (1.0 + (r.below(8) as f64) / 8.0));
+            // the fourth shift moves the point estimate to exactly zero where that is exactly possible
+            // (first sample only for the comparisons): a mean of 0 is as good a mean as any other
+            let to_zero = si == 3;
+            if to_zero {
+                if matches!(c.prod, Prod::Geometric | Prod::Harmonic) {
+                    continue;
+                }
+                let mean = |v: &[f64]| if v.is_empty() { 0.0 } else { v.iter().sum::<f64>() / v.len() as f64 };
+                let est = mean(&a64) - mean(&b64);
+                t = F::of(-est);
+                let exact = a.iter().all(|x| ((*x + t) - t) == *x) && t.f() == -est;
+                let sa_: Vec<f64> = a.iter().map(|x| (*x + t).f()).collect();
+                if !exact || est == 0.0 || mean(&sa_) - mean(&b64) != 0.0 {
+                    continue;
+                }
+                l.count("shift to an exactly zero point estimate");
+            }
             let sa: Vec<F> = a.iter().map(|x| *x + t).collect();
             // paired differences and unpaired differences of means are invariant when both shift
-            let sb: Vec<F> = b.iter().map(|x| *x + t).collect();
+            let sb: Vec<F> = if to_zero { b.clone() } else { b.iter().map(|x| *x + t).collect() };
             let sa64: Vec<f64> = sa.iter().map(|x| x.f()).collect();
             let sb64: Vec<f64> = sb.iter().map(|x| x.f()).collect();
             for (ci, (kind, level)) in c.confs.iter().enumerate() {
@@ -310,7 +327,7 @@ fn judge<F: Fl>(c: &Case, l: &mut Local) {
                 let s = ci_of::<F>(c.prod, *kind, *level, &sa, &sb);
                 l.eval();
                 l.count("shift judged");
-                let dt = if c.prod == Prod::Arithmetic { t.f() } else { 0.0 };
+                let dt = if c.prod == Prod::Arithmetic || to_zero { t.f() } else { 0.0 };
                 // x + t is rounded in F: the shifted data set is a (slightly) different data set.
                 // What any implementation owes is its own budget on each data set plus the exact
                 // displacement of the reference bounds caused by that rounding of the data.
@@ -507,7 +524,7 @@ pub fn run(run: &Arc<Run>) {
             judge::<f64>(&c, l)
         }
     });
-    let mut req: Vec<String> = vec!["scaling judged".into(), "negation judged".into(), "shift judged".into(), "reordering judged".into(), "scaling judged across interleaved queries".into(), "balanced unpaired design (integer effective dof)".into()];
+    let mut req: Vec<String> = vec!["scaling judged".into(), "negation judged".into(), "shift judged".into(), "shift to an exactly zero point estimate".into(), "reordering judged".into(), "scaling judged across interleaved queries".into(), "balanced unpaired design (integer effective dof)".into()];
     for ty in ["f32", "f64"] {
         for p in ["Arithmetic", "Paired", "Unpaired", "Geometric", "Harmonic"] {
             req.push(format!("{}:{}", ty, p));
